@@ -72,6 +72,9 @@ def generate(tier, rng):
                             continue
                         cases.append(dict(stream="plots", kind="plot", uni=uni, arr=dict(dims=dims, values=vals), x=x, sub=sub, line=line,
                                           xdims=xdims, plotter=plotter, by_name=(k % 3 == 0)))
+                        # the other chart types carry the same data (markers; areas filled down to the previous line)
+                        if (k // 2) % 3 and (plotter == "plotly" or xdims is not None or all(isinstance(i, (int, float)) for i in uni[x]["items"])):
+                            cases.append(dict(cases[-1], chart=["scatter", "area"][(k // 2) % 3 - 1]))
     return cases
 
 
@@ -114,6 +117,9 @@ def run_impl(case):
         n = nelem(uni, case["xdims"])
         kw["x_array"] = build_array(uni, dict(dims=case["xdims"], values=[100 + 7 * i for i in range(n)]))
     numeric_x = case["xdims"] is not None or all(isinstance(i, (int, float)) for i in uni[case["x"]]["items"])
+    chart = case.get("chart", "line")
+    if chart != "line":
+        kw["chart_type"] = chart
 
     def xs(v):
         # categorical x (string items): recorded as the item codes of the dimension
@@ -131,6 +137,16 @@ def run_impl(case):
             traces = []
             for ax in fig.axes:
                 ticks = [t.get_text() for t in ax.get_xticklabels()] if not numeric_x else None
+                npts = len(uni[case["x"]]["items"])
+                if chart != "line" and numeric_x:
+                    # markers: the offsets of each collection; areas: the upper boundary of each polygon (vertices 1..n of
+                    # fill_between's path: lower start point, the n upper points, then the lower boundary backwards)
+                    for coll in ax.collections:
+                        pts = np.asarray(coll.get_offsets()) if chart == "scatter" else np.asarray(coll.get_paths()[0].vertices)[1:npts + 1]
+                        traces.append(dict(x=xs(pts[:, 0]), y=observe_values(np.array(pts[:, 1], dtype=float)), name=str(coll.get_label())))
+                    continue
+                if chart != "line":
+                    continue
                 for ln in ax.lines:
                     xd = ln.get_xdata()
                     if not numeric_x:   # matplotlib maps categories to 0..n-1 in order of appearance; read the labels back
